@@ -605,7 +605,7 @@ def complete_scan(an, fx, next_ev):
             if tg in body:
                 continue
             # exit edge
-            if not an.cfg.succ[tg] and an.blocks[tg]["term"]["k"] != "return" and tg not in an.cfg.can_return:
+            if tg not in an.cfg.can_return:
                 continue   # leads only to a panic
             ev = fx.ev_term.get(x)
             if ev is None or ev["k"] != "switch":
